@@ -13,8 +13,8 @@ import (
 	"github.com/projectcalico/calico/felix/proto"
 	"github.com/projectcalico/calico/libcalico-go/lib/backend/api"
 	"github.com/projectcalico/calico/libcalico-go/lib/backend/model"
-	v1v "github.com/projectcalico/calico/typha/pkg/validator/v1"
 	v3v "github.com/projectcalico/calico/libcalico-go/lib/validator/v3"
+	v1v "github.com/projectcalico/calico/typha/pkg/validator/v1"
 
 	"verifsim/core"
 )
@@ -205,7 +205,7 @@ func run(r *core.R) {
 
 	// model datastore: per entity the history of variant indexes written; feed: what has been delivered
 	n := len(u.ents)
-	hist := make([][]int, n) // hist[i][k] = variant index (0 absent) of version k; version 0 = absent
+	hist := make([][]int, n)    // hist[i][k] = variant index (0 absent) of version k; version 0 = absent
 	delivered := make([]int, n) // index into hist[i] of the version Felix currently holds
 	for i := range hist {
 		hist[i] = []int{0}
@@ -377,7 +377,41 @@ func run(r *core.R) {
 	r.Probe("flushes")
 	// ---- quiet tail: a few isolated changes, each delivered and flushed on its own with nothing after it that
 	// could re-dirty what it failed to invalidate (missed-invalidation bugs otherwise hide behind later churn)
-	for t, nTail := 0, src.Intn(4, "tail_changes"); t < nTail; t++ {
+	nTail, pTailDelta := src.Intn(4, "tail_changes"), 350
+	if u.profOrder {
+		nTail, pTailDelta = nTail+1, 850
+	}
+	for t := 0; t < nTail; t++ {
+		// delta step: an entity goes from its base value to a value that differs from it in exactly one field
+		// (both steps flushed alone): incremental paths that compare old and new field by field
+		if src.Chance(pTailDelta, "tail_delta") {
+			var withDelta [][2]int // entity index, variant index (1-based) of the delta variant
+			for i, e := range u.ents {
+				for vi, v := range e.variants {
+					if v.deltaOf > 0 {
+						withDelta = append(withDelta, [2]int{i, vi + 1})
+					}
+				}
+			}
+			if len(withDelta) > 0 {
+				pick := withDelta[src.Intn(len(withDelta), "tail_delta_entity")]
+				i, dv := pick[0], pick[1]
+				e := u.ents[i]
+				for _, vi := range []int{e.variants[dv-1].deltaOf, dv} {
+					if hist[i][latest(i)] == vi {
+						continue
+					}
+					hist[i] = append(hist[i], vi)
+					r.Probe("tail_delta_step")
+					r.Logf("tail delta write %s -> v%d (variant %d)", e.name, latest(i), vi)
+					var batch []api.Update
+					deliverVersion(&batch, i, latest(i))
+					main.deliver(batch)
+					main.flush()
+				}
+				continue
+			}
+		}
 		var infra, other []int
 		for i, e := range u.ents {
 			switch e.kind {
